@@ -8,6 +8,9 @@ Follows the Go code statement by statement; core Lean only.
   mergeGroupCounts, GroupCount.Compare   executor.go
   Pairs.Add                              cache.go     (result compared as a map: order unspecified)
   Count reducer (uint64 +)               executor.go  executeCount
+  Row.Merge, rowSegment.Merge,
+  mergeSegmentIterator.next              row.go       (reducer of every bitmap call, executeBitmapCall)
+  bool OR reducer                        executor.go  executeClearRow / executeSetRow
   mapReduce / mapperLocal                executor.go  result = fold of reduceFn over arrival order,
                                                        starting from nil (= zero value)
 int64 / uint64 are modelled as Int / Nat (no wrap-around: counts are bounded by 2^20 per shard
@@ -122,6 +125,62 @@ def pairsAdd (p other : List Pair) : List Pair :=
   let m := p.foldl (fun m x => mapSet m x.id x.count) []
   let m := other.foldl (fun m x => mapAdd m x.id x.count) m
   m.map (fun kv => ⟨kv.1, kv.2⟩)
+
+
+/-! ### Row.Merge (row.go): the reducer of every bitmap call (`executeBitmapCall`). -/
+
+/-- A `rowSegment`: the shard it belongs to and the columns of its bitmap (ascending,
+duplicate free: the abstract value of a roaring bitmap, see C01). -/
+structure Seg where
+  shard : Nat
+  cols : List Nat
+deriving DecidableEq, Repr, Inhabited
+
+/-- `rowSegment.SetBit` = `roaring.Bitmap.Add` on the abstract value. -/
+def insertCol (x : Nat) : List Nat → List Nat
+  | [] => [x]
+  | y :: ys => if x < y then x :: y :: ys else if x = y then y :: ys else y :: insertCol x ys
+
+/-- `rowSegment.Merge`: iterate over the other segment's bits and `SetBit` each of them. -/
+def segMerge (s other : Seg) : Seg :=
+  ⟨s.shard, other.cols.foldl (fun acc v => insertCol v acc) s.cols⟩
+
+/-- `mergeSegmentIterator.next` as coded: returns `(s0, s1)` and the advanced iterator `(a0, a1)`.
+When `s0.shard > s1.shard` the Go code returns `(s1, nil)` — the OTHER row's segment in the first
+position (for `Row.Merge` this is harmless: a lone segment is appended whichever side it is on). -/
+def mergeSegNext : List Seg → List Seg → Option Seg × Option Seg × List Seg × List Seg
+  | [], [] => (none, none, [], [])
+  | [], s1 :: r1 => (none, some s1, [], r1)
+  | s0 :: r0, [] => (some s0, none, r0, [])
+  | s0 :: r0, s1 :: r1 =>
+    if s0.shard < s1.shard then (some s0, none, r0, s1 :: r1)
+    else if s0.shard > s1.shard then (some s1, none, s0 :: r0, r1)
+    else (some s0, some s1, r0, r1)
+
+/-- The loop of `Row.Merge`; fuel = number of segments + 1. -/
+def rowMergeLoop : Nat → List Seg → List Seg → List Seg
+  | 0, _, _ => []
+  | fuel+1, a0, a1 =>
+    match mergeSegNext a0 a1 with
+    | (none, none, _, _) => []
+    | (none, some s1, a0', a1') => s1 :: rowMergeLoop fuel a0' a1'
+    | (some s0, none, a0', a1') => s0 :: rowMergeLoop fuel a0' a1'
+    | (some s0, some s1, a0', a1') => segMerge s0 s1 :: rowMergeLoop fuel a0' a1'
+
+/-- `Row.Merge` (value of `r.segments` afterwards). `nil` of the reducer = `NewRow()` = `[]`. -/
+def rowMerge (r other : List Seg) : List Seg :=
+  rowMergeLoop (r.length + other.length + 1) r other
+
+/-- The bits of a row as (shard, column) pairs in `Row.Columns()` order. -/
+def rowBits (r : List Seg) : List (Nat × Nat) :=
+  r.flatMap (fun s => s.cols.map (fun c => (s.shard, c)))
+
+/-! ### bool reducer of executeClearRow / executeSetRow: `prev == nil ? v : v || prev`. -/
+def boolReduce (prev v : Option Bool) : Option Bool :=
+  match v, prev with
+  | none, p => p              -- not reachable in Go: a shard / node result is always a bool
+  | some v, none => some v
+  | some v, some p => some (v || p)
 
 /-- `mapperLocal` / the coordinator loop of `mapReduce`: reduce in arrival order from nil. -/
 def reduceAll {α : Type} (f : α → α → α) (nil : α) (arrivals : List α) : α :=
